@@ -19,6 +19,14 @@ Definition sys_writers : list string :=
 Definition sys_notifiers : list string := [ "System.Runtime.Notify"; "System.Runtime.Log" ].
 Definition sys_callers : list string := [ "System.Contract.Call"; "System.Runtime.LoadScript" ].
 
+(* The two block-trigger system calls also emit events (GAS Transfer for fees and rewards, NEO CommitteeChanged)
+   while their table entry requires only States.  They are refused under every other trigger and the node loads the
+   persist scripts with callflag.All (blockchain.go runPersist), so no frame without AllowNotify can run them; they are
+   deliberately NOT in [sys_notifiers] and the harness runs them only with the flags the node uses (and with flag sets
+   lacking States, to see the refusal). *)
+Definition sys_block_trigger : list string := [ "System.Contract.NativeOnPersist"; "System.Contract.NativePostPersist" ].
+Definition is_sys_block_trigger (n : string) := str_in n sys_block_trigger.
+
 Definition is_sys_writer (n : string) := str_in n sys_writers.
 Definition is_sys_notifier (n : string) := str_in n sys_notifiers.
 Definition is_sys_caller (n : string) := str_in n sys_callers.
@@ -58,10 +66,11 @@ Definition native_callers : list (string * string) :=
     ("OracleContract", "finish");                                         (* the request's callback *)
     ("Notary", "withdraw") ].                                             (* GAS.transfer *)
 
-(* Finding F13: methods that reach GAS MintDeferrable(callOnPayment = true) — the voter contract's onNEP17Payment —
-   through NEO.voteInternalUncheckedDeferrable, although their RequiredFlags lack AllowCall. *)
+(* Finding F39: methods that reach GAS MintDeferrable(callOnPayment = true) — the voter contract's onNEP17Payment —
+   through NEO.voteInternalUncheckedDeferrable (vote; blockAccount and destroy revoke the account's votes), although
+   their RequiredFlags lack AllowCall. *)
 Definition native_indirect_callers : list (string * string) :=
-  [ ("NeoToken", "vote"); ("PolicyContract", "blockAccount") ].
+  [ ("NeoToken", "vote"); ("PolicyContract", "blockAccount"); ("ContractManagement", "destroy") ].
 
 Definition is_native_writer (c m : string) := pair_in c m native_writers.
 Definition is_native_notifier (c m : string) := pair_in c m native_notifiers.
